@@ -224,7 +224,7 @@ pub fn check_code(code: &[u8], permissive: bool, hostile_positions: bool, acc: &
 
 fn run_shard(ctx: &ShardCtx, acc: &mut Acc) {
     let tier = ctx.tier;
-    drive(ctx, "layouts", tier.pick(1_500, 25_000), 900, acc, &|ch, acc| {
+    drive(ctx, "layouts", tier.pick(20_000, 250_000), 900, acc, &|ch, acc| {
         let permissive = ch.chance(1, 3);
         let (name, code, hostile): (&str, Vec<u8>, bool) = match ch.below(10) {
             0..=2 => ("packed-edge", g_packed_edge(ch).code(), true),
